@@ -98,6 +98,8 @@ def check(pid, tier, seed, only_report=None):
         with cf.ThreadPoolExecutor(max_workers=8) as ex:
             futs = {un: ex.submit(V.run, u, path, rl) for un, (u, path) in units.items()}
             kh = [h for h in prop.get("kani", []) if tier == "thorough" or not REG.KANI[h].get("thorough_only")]
+            if os.environ.get("VERIF_SKIP_KANI") == "1":   # self-test convenience only; never set by the registered commands
+                kh = []
             kf = ex.submit(_run_kani, kh) if kh else None
             lf = [ex.submit(L.run, name, work, tier) for name in prop.get("lemmas", [])]
             cfuts = {un: ex.submit(V.run, cu, cpath, rl) for un, (cu, cpath) in canary_units.items()}
